@@ -45,11 +45,58 @@ func runC18(c *Ctx) {
 			cbs = append(cbs, cv)
 		}
 	})
+	// a callback handed to a helper of the package that invokes it (yield(tokenF, &token)): the helper's call in the driver is
+	// the callback site, with the helper's argument that reaches the callback as the callback's argument; the helper must call the
+	// callback at exactly one place
+	effArg := map[*ssa.Call]ssa.Value{}
+	allCalls(fn, func(call ssa.CallInstruction) {
+		cv, ok := call.(*ssa.Call)
+		if !ok {
+			return
+		}
+		h := cv.Call.StaticCallee()
+		if h == nil || h.Pkg != fn.Pkg || h == fn || len(h.Blocks) == 0 {
+			return
+		}
+		for ai, a := range cv.Call.Args {
+			prm, isParam := a.(*ssa.Parameter)
+			if !isParam || ai >= len(h.Params) {
+				continue
+			}
+			if _, isFunc := prm.Type().Underlying().(*types.Signature); !isFunc {
+				continue
+			}
+			var inner []*ssa.Call
+			allCalls(h, func(ic ssa.CallInstruction) {
+				if iv, ok := ic.(*ssa.Call); ok && iv.Call.Value == ssa.Value(h.Params[ai]) {
+					inner = append(inner, iv)
+				}
+			})
+			if len(inner) != 1 || len(inner[0].Call.Args) != 1 {
+				continue
+			}
+			for k, hp := range h.Params {
+				if inner[0].Call.Args[0] == ssa.Value(hp) && k < len(cv.Call.Args) {
+					cbs = append(cbs, cv)
+					effArg[cv] = cv.Call.Args[k]
+				}
+			}
+		}
+	})
+	argOf := func(cb *ssa.Call) ssa.Value {
+		if v, ok := effArg[cb]; ok {
+			return v
+		}
+		if len(cb.Call.Args) == 1 {
+			return cb.Call.Args[0]
+		}
+		return nil
+	}
 	var tokCB, prodCB []*ssa.Call
 	for _, cb := range cbs {
-		if len(cb.Call.Args) == 1 && cb.Call.Args[0] == ssa.Value(d.tok) {
+		if a := argOf(cb); a != nil && a == ssa.Value(d.tok) {
 			tokCB = append(tokCB, cb)
-		} else if len(cb.Call.Args) == 1 && cb.Call.Args[0] == d.param {
+		} else if a != nil && a == d.param {
 			prodCB = append(prodCB, cb)
 		} else {
 			c.Fail("R18.1", "callback argument", cb.Pos(), "a callback is invoked with something other than the look-ahead token or ACTION's production index")
@@ -61,7 +108,9 @@ func runC18(c *Ctx) {
 		}
 		return a.Block().Dominates(b.Block())
 	}
-	if c.Check("R18.1", "exactly one token-callback site", fn.Pos(), len(tokCB) == 1, fmt.Sprintf("%d sites", len(tokCB))) {
+	if len(tokCB) == 0 {
+		c.Undecided("R18.1", "exactly one token-callback site", fn.Pos(), "no call of the token callback was found in the driver or in a helper it hands the callback to")
+	} else if c.Check("R18.1", "exactly one token-callback site", fn.Pos(), len(tokCB) == 1, fmt.Sprintf("%d sites", len(tokCB))) {
 		cb := tokCB[0]
 		c.Check("R18.1", "the token callback runs only on SHIFT", cb.Pos(), controlledByEq(cb.Block(), d.typ, d.kShift), "token callback not guarded by action == lr.SHIFT")
 		// before the next token is read: the shift-region nextToken call comes after
@@ -74,7 +123,9 @@ func runC18(c *Ctx) {
 		c.Check("R18.1", "the token callback runs before the next token is read", cb.Pos(), okBefore, "the look-ahead is overwritten before the shifted token is yielded: the callback sees the wrong token")
 		checkCallbackError(c, fn, cb, "token callback")
 	}
-	if c.Check("R18.1", "exactly one production-callback site", fn.Pos(), len(prodCB) == 1, fmt.Sprintf("%d sites", len(prodCB))) {
+	if len(prodCB) == 0 {
+		c.Undecided("R18.1", "exactly one production-callback site", fn.Pos(), "no call of the production callback was found in the driver or in a helper it hands the callback to")
+	} else if c.Check("R18.1", "exactly one production-callback site", fn.Pos(), len(prodCB) == 1, fmt.Sprintf("%d sites", len(prodCB))) {
 		cb := prodCB[0]
 		c.Check("R18.1", "the production callback runs only on REDUCE", cb.Pos(), controlledByEq(cb.Block(), d.typ, d.kReduce), "production callback not guarded by action == lr.REDUCE")
 		c.Check("R18.1", "the production callback runs once per reduction (not inside the pop loop)", cb.Pos(), !d.popLoop[cb.Block()], "the production callback is inside the loop that pops the body's states")
@@ -216,6 +267,7 @@ func checkEvaluatePlumbing(c *Ctx, g *ebnfGrammar) {
 
 	// production closure
 	var lenVar, rhsVar types.Object
+	inlineLen := false
 	ast.Inspect(prodLit.Body, func(n ast.Node) bool {
 		as, ok := n.(*ast.AssignStmt)
 		if !ok || len(as.Lhs) != 1 || len(as.Rhs) != 1 {
@@ -245,10 +297,43 @@ func checkEvaluatePlumbing(c *Ctx, g *ebnfGrammar) {
 			if li, ok := ast.Unparen(call.Args[1]).(*ast.Ident); ok && lenVar != nil && info.Uses[li] == lenVar {
 				rhsVar = info.Defs[l]
 			}
+			// make([]T, len(productions[i].Body)) without a local for the length
+			if lc, ok := ast.Unparen(call.Args[1]).(*ast.CallExpr); ok && len(lc.Args) == 1 {
+				if lid, ok := lc.Fun.(*ast.Ident); ok && lid.Name == "len" {
+					if sel, ok := ast.Unparen(lc.Args[0]).(*ast.SelectorExpr); ok && sel.Sel.Name == "Body" {
+						if ix, ok := ast.Unparen(sel.X).(*ast.IndexExpr); ok {
+							if pid, ok := ast.Unparen(ix.X).(*ast.Ident); ok && info.Uses[pid] == types.Object(g.prodsVar) {
+								if ii, ok := ast.Unparen(ix.Index).(*ast.Ident); ok && info.Uses[ii] == idxParam {
+									rhsVar = info.Defs[l]
+									inlineLen = true
+								}
+							}
+						}
+					}
+				}
+			}
 		}
 		return true
 	})
-	c.Check("R18.3", "the number of values taken is len(productions[i].Body)", prodLit.Pos(), lenVar != nil && rhsVar != nil, "the slice handed to the evaluation callback is not made with the length of the production's body")
+	// the same two questions asked of the closure's SSA, for shapes the syntax rules below do not read
+	fillRes, fillWhy := -1, ""
+	if pfn := c.SSAFunc(p, fd); pfn != nil {
+		for _, af := range pfn.AnonFuncs {
+			if af.Pos() == prodLit.Type.Func || af.Pos() == prodLit.Pos() {
+				fillRes, fillWhy = popFillOrder(af, g)
+			}
+		}
+	}
+	if (lenVar == nil && !inlineLen) || rhsVar == nil {
+		switch fillRes {
+		case 1:
+			c.Pass("R18.3", "the number of values taken is len(productions[i].Body)", prodLit.Pos(), "decided on the closure's SSA")
+		default:
+			c.Undecided("R18.3", "the number of values taken is len(productions[i].Body)", prodLit.Pos(), "the slice handed to the evaluation callback was not recognised as made with the length of the production's body ("+fillWhy+")")
+		}
+	} else {
+		c.Pass("R18.3", "the number of values taken is len(productions[i].Body)", prodLit.Pos(), "")
+	}
 	// the descending loop
 	var loop *ast.ForStmt
 	ast.Inspect(prodLit.Body, func(n ast.Node) bool {
@@ -316,8 +401,18 @@ func checkEvaluatePlumbing(c *Ctx, g *ebnfGrammar) {
 			why = "loop is not `for i := l - 1; i >= 0; i--`"
 		}
 	}
-	c.Check("R18.3", "values are popped into strictly descending positions l-1 .. 0 (first popped is the last body symbol)", prodLit.Pos(), loopOK,
-		"the body values are not placed left to right: "+why, "any production with two value-carrying symbols, e.g. rhs → rhs rhs")
+	fillKey := "values are popped into strictly descending positions l-1 .. 0 (first popped is the last body symbol)"
+	switch {
+	case loopOK || fillRes == 1:
+		c.Pass("R18.3", fillKey, prodLit.Pos(), "")
+	case fillRes == 0:
+		c.Fail("R18.3", fillKey, prodLit.Pos(), "the body values are not placed left to right: "+fillWhy, "any production with two value-carrying symbols, e.g. rhs → rhs rhs")
+	case loop != nil && loop.Init != nil && loop.Cond != nil && loop.Post != nil && lenVar != nil && rhsVar != nil:
+		// the syntax rule read the loop and found it wrong
+		c.Fail("R18.3", fillKey, prodLit.Pos(), "the body values are not placed left to right: "+why, "any production with two value-carrying symbols, e.g. rhs → rhs rhs")
+	default:
+		c.Undecided("R18.3", fillKey, prodLit.Pos(), "the loop that fills the values was not understood ("+why+"; "+fillWhy+")")
+	}
 	// eval(i, rhs)
 	var evalCall *ast.CallExpr
 	var lhsVar, errVar types.Object
@@ -410,4 +505,144 @@ func checkEvaluatePlumbing(c *Ctx, g *ebnfGrammar) {
 	})
 	c.Check("R18.3", "the callback's result becomes the head's value", prodLit.Pos(), valOK && pushes == 1, "the value pushed for the head is not &lr.Value{Val: <result of eval>}")
 	c.Check("R18.3", "the first body symbol's position becomes the head's position", prodLit.Pos(), posOK, "v.Pos is not taken from rhs[0].Pos")
+}
+
+// popFillOrder decides, on the SSA of the production closure, that the values popped for a production of n body symbols are
+// placed right to left: the slice is made with n = len(productions[i].Body) elements, one value is popped per round of a loop
+// that runs n times, and the j-th value popped (j = 0, 1, ...) is stored at position n-1-j. The index expression is read as an
+// affine form a·n + b·counter + k over the loop's counter, so `for i := n-1; i >= 0; i--  rhs[i] = pop` and
+// `for k := range rhs  rhs[len(rhs)-1-k] = pop` are the same thing. Returns 1 (holds), 0 (violated), -1 (not understood).
+func popFillOrder(fn *ssa.Function, g *ebnfGrammar) (int, string) {
+	if fn == nil || len(fn.Params) == 0 {
+		return -1, "no SSA for the production closure"
+	}
+	idx := ssa.Value(fn.Params[0])
+	var m *ssa.MakeSlice
+	for _, b := range fn.Blocks {
+		for _, in := range b.Instrs {
+			if ms, ok := in.(*ssa.MakeSlice); ok && isLenOfProdField(fn, ms.Len, g, idx, "Body") {
+				m = ms
+			}
+		}
+	}
+	if m == nil {
+		return -1, "no slice made with len(productions[i].Body) elements"
+	}
+	var pops []*ssa.Call
+	allCalls(fn, func(call ssa.CallInstruction) {
+		if cv, ok := call.(*ssa.Call); ok && methodNameOf(call) == "Pop" {
+			pops = append(pops, cv)
+		}
+	})
+	if len(pops) != 1 {
+		return -1, fmt.Sprintf("%d pop sites", len(pops))
+	}
+	pop := pops[0]
+	// the store of the popped value into the slice
+	var store *ssa.Store
+	var ia *ssa.IndexAddr
+	for _, b := range fn.Blocks {
+		for _, in := range b.Instrs {
+			st, ok := in.(*ssa.Store)
+			if !ok {
+				continue
+			}
+			a, ok := st.Addr.(*ssa.IndexAddr)
+			if !ok || a.X != ssa.Value(m) {
+				continue
+			}
+			v := st.Val
+			if ex, ok := v.(*ssa.Extract); ok && ex.Tuple == ssa.Value(pop) {
+				store, ia = st, a
+			}
+		}
+	}
+	if store == nil {
+		return -1, "the popped value is not stored into an element of that slice"
+	}
+	// the loop counter: an int phi with an edge phi±1, in a block that dominates the pop
+	var ctr *ssa.Phi
+	step := int64(0)
+	var initV ssa.Value
+	for _, b := range fn.Blocks {
+		if !(b == pop.Block() || b.Dominates(pop.Block())) {
+			continue
+		}
+		for _, in := range b.Instrs {
+			ph, ok := in.(*ssa.Phi)
+			if !ok || !isInt(ph.Type()) {
+				continue
+			}
+			var iv ssa.Value
+			st := int64(0)
+			for _, e := range ph.Edges {
+				if bo, ok := e.(*ssa.BinOp); ok && bo.X == ssa.Value(ph) && isConstInt(bo.Y, 1) {
+					switch bo.Op {
+					case token.ADD:
+						st = 1
+					case token.SUB:
+						st = -1
+					}
+				} else {
+					iv = e
+				}
+			}
+			if st != 0 && iv != nil {
+				ctr, step, initV = ph, st, iv
+			}
+		}
+	}
+	if ctr == nil {
+		return -1, "no loop counter around the pop"
+	}
+	// affine forms over (n, counter)
+	type lin struct{ n, c, k int64 }
+	var eval func(v ssa.Value, depth int) (lin, bool)
+	eval = func(v ssa.Value, depth int) (lin, bool) {
+		if depth > 6 {
+			return lin{}, false
+		}
+		if v == ssa.Value(ctr) {
+			return lin{0, 1, 0}, true
+		}
+		if v == m.Len {
+			return lin{1, 0, 0}, true
+		}
+		switch x := v.(type) {
+		case *ssa.Const:
+			if x.Value != nil {
+				return lin{0, 0, x.Int64()}, true
+			}
+		case *ssa.Call:
+			if bi, ok := x.Call.Value.(*ssa.Builtin); ok && bi.Name() == "len" {
+				if x.Call.Args[0] == ssa.Value(m) || isLenOfProdField(fn, x, g, idx, "Body") {
+					return lin{1, 0, 0}, true
+				}
+			}
+		case *ssa.BinOp:
+			a, ok1 := eval(x.X, depth+1)
+			b, ok2 := eval(x.Y, depth+1)
+			if ok1 && ok2 {
+				switch x.Op {
+				case token.ADD:
+					return lin{a.n + b.n, a.c + b.c, a.k + b.k}, true
+				case token.SUB:
+					return lin{a.n - b.n, a.c - b.c, a.k - b.k}, true
+				}
+			}
+		case *ssa.Convert:
+			return eval(x.X, depth+1)
+		}
+		return lin{}, false
+	}
+	e, ok1 := eval(ia.Index, 0)
+	i0, ok2 := eval(initV, 0)
+	if !ok1 || !ok2 || i0.c != 0 {
+		return -1, "the index of the store or the start of the counter is not an affine form over the length and the counter"
+	}
+	// position of the j-th value: e.n·n + e.c·(init + j·step) + e.k  must be  n - 1 - j
+	if e.c*step == -1 && e.n+e.c*i0.n == 1 && e.c*i0.k+e.k == -1 {
+		return 1, ""
+	}
+	return 0, fmt.Sprintf("the j-th value popped goes to position %d·n %+d·j %+d, it must go to n-1-j (the last body symbol is popped first)", e.n+e.c*i0.n, e.c*step, e.c*i0.k+e.k)
 }
